@@ -93,3 +93,20 @@ Definition any_cfg : config :=
 (* with a deadline the attempt ends AT the deadline, whatever it is: there is no finite time at which it ends by itself *)
 Lemma F7_refuted : forall d, match connect any_cfg d silent_world with CErr 3 w' => w_now w' = d | _ => False end.
 Proof. intros d. vm_compute. reflexivity. Qed.
+
+(* ---------- F8 (C02): the date number was split with `date as i32 / 10000`, `date as u32 % 10000 / 100`, `date as u32 % 100` ---------- *)
+Definition legacy_date_split (date : N) : Z * N * N :=
+  (Z.quot (as_i32 date) 10000, ((date mod 4294967296) mod 10000) / 100, (date mod 4294967296) mod 100).
+(* the ten digits 4315197701 (2^32 + 20230405) were read as 5 April 2023, 2621430101 (beyond 2^31) as 1 January of the year -167353 *)
+Lemma F8_refuted : legacy_date_split 4315197701 = (2023%Z, 4, 5) /\ legacy_date_split 2621430101 = ((-167353)%Z, 1, 1).
+Proof. split; reflexivity. Qed.
+(* now: 1F0E 05 4315197701 1F0F 03 123456 is an error; and whenever the decoder answers, the date it answers IS the number's
+   digits: year = date / 10000 (at most the calendar's last year), month and day its last four digits *)
+Lemma F8_now : datetime_dec [31; 14; 5; 67; 21; 25; 119; 1; 31; 15; 3; 18; 52; 86] = Err IncompleteData
+            /\ datetime_dec [31; 14; 5; 38; 33; 67; 1; 1; 31; 15; 3; 18; 52; 86] = Ok (VDate 262143 1 1 12 34 56, []).
+Proof. split; vm_compute; reflexivity. Qed.
+Lemma F8_both :
+  (legacy_date_split 4315197701 = (2023%Z, 4, 5) /\ legacy_date_split 2621430101 = ((-167353)%Z, 1, 1)) /\
+  (datetime_dec [31; 14; 5; 67; 21; 25; 119; 1; 31; 15; 3; 18; 52; 86] = Err IncompleteData /\
+   datetime_dec [31; 14; 5; 38; 33; 67; 1; 1; 31; 15; 3; 18; 52; 86] = Ok (VDate 262143 1 1 12 34 56, [])).
+Proof. exact (conj F8_refuted F8_now). Qed.
